@@ -1294,7 +1294,8 @@ class Cycles:
             raise ValueError
 
         chain_pos = np.zeros_like(self.chain_vect)
-        for ii in range(self.chain_vect.max() + 1):
+        nchains = self.chain_vect.max() + 1 if len(self.chain_vect) > 0 else 0
+        for ii in range(nchains):
             inds = np.where(self.chain_vect == ii)[0]
             chain_pos[inds] = np.arange(len(inds))
         chain_pos = _cycles_support.project_subset_to_cycles(chain_pos, self.subset_vect)
